@@ -650,6 +650,23 @@ func runR140(c *Ctx) {
 		c.undecided("config/eval.NewDefaultCtx|string functions", "-", "no string function of the default context could be resolved")
 		return
 	}
+	// their package mates: however the tables are filled (literals, a loop over (name, fn) pairs), the functions on
+	// *string cells of the package the resolved ones live in are the candidates for registration
+	pkgs := map[*ssa.Package]bool{}
+	for _, r := range roots {
+		pkgs[r.Pkg] = true
+	}
+	for _, f := range p.Funcs {
+		if f.Pkg == nil || !pkgs[f.Pkg] || f.Parent() != nil && !seen[f.Parent()] {
+			continue
+		}
+		for _, prm := range f.Params {
+			if isStrPtr(prm.Type()) {
+				add(f)
+				break
+			}
+		}
+	}
 	sort.Slice(roots, func(i, j int) bool { return fname(roots[i]) < fname(roots[j]) })
 	for _, fn := range roots {
 		fnm := fname(fn)
@@ -804,7 +821,7 @@ func runR141(c *Ctx) {
 // ---------- R142 ----------
 
 func init() {
-	register(&Rule{ID: "R142", Name: "ENUM-NULL-GUARD", Floor: 5,
+	register(&Rule{ID: "R142", Name: "ENUM-NULL-GUARD", Floor: 2,
 		Text: "in internal/ecolumn every access to a values table indexed by a cell's code (an enumVal converted to an index) is dominated by a test that the code is not the null code - isNull() of the same value (or of the same cell read again) answered false, or a comparison with the null constant: the null code is 255 and a values table never has more than 255 entries, so an unguarded access panics for every null cell (ToCSV, ToJSON, String, views)",
 		Run:  runR142})
 }
@@ -877,6 +894,46 @@ func runR142(c *Ctx) {
 								guarded = true
 							}
 						}
+					}
+				}
+			}
+			// `a.isNull() != b.isNull()` answered false (or `==` answered true) ties the two null tests together: when
+			// the other code is known not to be null, this one is not either
+			if !guarded {
+				isNullCallOn := func(v ssa.Value) (ssa.Value, bool) {
+					call, ok := v.(*ssa.Call)
+					if !ok || len(call.Call.Args) != 1 || !isEnumVal(call.Call.Args[0].Type()) {
+						return nil, false
+					}
+					callee := call.Call.StaticCallee()
+					if callee == nil || !r142IsNullPredicate(callee) {
+						return nil, false
+					}
+					return call.Call.Args[0], true
+				}
+				guards := dominatingGuards(in.Block())
+				notNull := func(v ssa.Value) bool {
+					for _, g := range guards {
+						cond, val := unNot(g.Cond, g.Val)
+						if arg, ok := isNullCallOn(cond); ok && !val && sameCode(arg, v) {
+							return true
+						}
+					}
+					return false
+				}
+				for _, g := range guards {
+					cond, val := unNot(g.Cond, g.Val)
+					cmp, ok := cond.(*ssa.BinOp)
+					if !ok || !(cmp.Op == token.NEQ && !val || cmp.Op == token.EQL && val) {
+						continue
+					}
+					a, ok1 := isNullCallOn(cmp.X)
+					b, ok2 := isNullCallOn(cmp.Y)
+					if !ok1 || !ok2 {
+						continue
+					}
+					if sameCode(a, code) && notNull(b) || sameCode(b, code) && notNull(a) {
+						guarded = true
 					}
 				}
 			}
@@ -974,6 +1031,18 @@ func runR144(c *Ctx) {
 			for _, g := range dominatingGuards(call.Block()) {
 				cond, val := unNot(g.Cond, g.Val)
 				t, ok := cond.(*ssa.Call)
+				if !ok {
+					// the same test wrapped into a helper that answers with an error: `if err := c.comparable(other); err != nil`
+					if cmp, isCmp := cond.(*ssa.BinOp); isCmp && (cmp.Op == token.EQL && val || cmp.Op == token.NEQ && !val) {
+						for _, side := range [][2]ssa.Value{{cmp.X, cmp.Y}, {cmp.Y, cmp.X}} {
+							if cst, isC := side[1].(*ssa.Const); isC && cst.IsNil() {
+								if ec, isCall := side[0].(*ssa.Call); isCall && isErrorType(ec.Type()) {
+									t, ok, val = ec, true, true
+								}
+							}
+						}
+					}
+				}
 				if !ok || !val {
 					continue
 				}
